@@ -17,6 +17,7 @@ pub type Result<T> = core::result::Result<T, VErr>;
 pub struct StateID { pub v: u32 }
 pub struct SimpleVob { pub data: Vec<u32>, pub size: usize }
 pub struct GrammarStackNode { pub v: u32 }
+pub struct LexerResult { pub v: u32 }
 
 //@@ struct parser/src/earley/parser.rs LexerState fields=row_idx,lexer_state,byte derive=Clone,Copy
 //@@ struct parser/src/earley/parser.rs RowInfo fields=start_byte_idx,token_idx_start,token_idx_stop
@@ -126,6 +127,43 @@ impl ParserState {
 //@ spec
     requires self.lexer_stack@.len() >= 1,
     ensures r == self.lexer_stack@[self.lexer_stack@.len() - 1],
+//@ end
+
+
+    // ---- flush_lexer: where the entry it adds to the lexer stack is recorded (the token-range branch of apply_token removes
+    // ---- exactly `lexer_stack[lexer_stack_flush_position]` to keep one entry per byte; rollback later cuts the stack by byte count)
+    #[verifier::external_body]
+    fn has_pending_lexeme_bytes(&self) -> (r: bool) { unimplemented!() }
+    /// R29: `self.lexer_mut().try_lexeme_end(st)` (derivre lexer: what ends the pending lexeme) as one opaque call
+    #[verifier::external_body]
+    fn verif_try_lexeme_end(&mut self, st: StateID) -> (r: LexerResult)
+        ensures *final(self) == *old(self),
+    { unimplemented!() }
+    /// ASSUMED (Earley side): feeding a forced lexeme end either leaves the lexer stack alone or pushes exactly one entry on top of it,
+    /// does not touch the recorded flush position and asks for no backtracking
+    #[verifier::external_body]
+    fn advance_lexer_or_parser(&mut self, lex_result: LexerResult, curr: LexerState) -> (r: bool)
+        ensures
+            final(self).lexer_stack@ == old(self).lexer_stack@
+                || (final(self).lexer_stack@.len() == old(self).lexer_stack@.len() + 1
+                    && final(self).lexer_stack@.take(old(self).lexer_stack@.len() as int) == old(self).lexer_stack@),
+            final(self).lexer_stack_flush_position == old(self).lexer_stack_flush_position,
+            final(self).backtrack_byte_count == old(self).backtrack_byte_count,
+    { unimplemented!() }
+
+//@@ fn parser/src/earley/parser.rs ParserState::flush_lexer
+//@ ret r
+//@ rewrite R29 :: self.lexer_mut().try_lexeme_end(curr.lexer_state) ==> self.verif_try_lexeme_end(curr.lexer_state)
+//@ spec
+    requires old(self).lexer_stack@.len() >= 1, old(self).backtrack_byte_count == 0,
+    ensures
+        // at most one entry is added, on top, and then the recorded position IS the index of that entry
+        final(self).lexer_stack@ == old(self).lexer_stack@
+            || (final(self).lexer_stack@.len() == old(self).lexer_stack@.len() + 1
+                && final(self).lexer_stack@.take(old(self).lexer_stack@.len() as int) == old(self).lexer_stack@
+                && final(self).lexer_stack_flush_position == final(self).lexer_stack@.len() - 1
+                && final(self).lexer_stack_flush_position >= 1),
+        final(self).lexer_stack@ == old(self).lexer_stack@ ==> final(self).lexer_stack_flush_position == old(self).lexer_stack_flush_position,
 //@ end
 
 //@@ fn parser/src/earley/parser.rs ParserState::num_rows
@@ -246,6 +284,14 @@ impl ParserState {
 }
 
 
+/// must FAIL: flush_lexer may add an entry
+pub fn must_fail_flush_never_pushes(s: &mut ParserState)
+    requires old(s).lexer_stack@.len() >= 1, old(s).backtrack_byte_count == 0,
+{
+    let ghost n = s.lexer_stack@.len();
+    let _ = s.flush_lexer();
+    assert(s.lexer_stack@.len() == n);
+}
 // vacuity guard: a deliberately false lemma that must be REJECTED (shows inv() is satisfiable and the solver is alive)
 pub proof fn must_fail_inv_implies_empty(s: ParserState)
     requires s.inv(),
